@@ -6,6 +6,7 @@
 
 mod c02;
 mod c03;
+mod c04;
 mod c06;
 mod c07;
 mod c09;
@@ -13,6 +14,7 @@ mod c11;
 mod c12;
 mod c14;
 mod c17;
+mod keys;
 mod codecref;
 mod ops;
 mod ops2;
@@ -103,6 +105,9 @@ fn oracle(prop: &str, op: &[&str], out: &str) -> Verdict {
         "C02" => c02::oracle(op, out),
         "C09" => c09::oracle(op, out),
         "C17" => c17::oracle(op, out),
+        "C04" => c04::oracle_c04(op, out),
+        "C05" => c04::oracle_c05(op, out),
+        "C15" => c04::oracle_c15(op, out),
         "C03" => c03::oracle(op, out),
         "C14" => c14::oracle(op, out),
         _ => Verdict::NotApplicable,
@@ -118,6 +123,9 @@ fn generate(prop: &str, tier: &str, rng: &mut util::Prng) -> Vec<Case> {
         "C02" => c02::generate(tier, rng),
         "C09" => c09::generate(tier, rng),
         "C17" => c17::generate(tier, rng),
+        "C04" => c04::generate_c04(tier, rng),
+        "C05" => c04::generate_c05(tier, rng),
+        "C15" => c04::generate_c15(tier, rng),
         "C03" => c03::generate(tier, rng),
         "C14" => c14::generate(tier, rng),
         _ => {
